@@ -2,20 +2,28 @@
 C01 - every enumerated xpath resolves to exactly the leaf it names.
 
 Lean: Model/XPath.lean, Model/XPathApi.lean, Props/C01.lean
-B streams: xp.tok / xp.split / xp.eval (token layer), xp.enum, xp.get (item access, get, first)
+  Gen/XPathPrim.lean is regenerated from the Python source of n0eval and split_name_index by translate()
+  (harness/translate_py_xp.py); C01_generated_n0eval_eq / C01_generated_split_eq prove it equal to the model.
+B streams: xp.tok / xp.split / xp.eval (token layer), xp.enum, xp.get (item access, get, first);
+           xpprim.eval / xpprim.split (the definitions translated from the source)
 C evaluators: enumeration vs an independent DFS; every enumerated pair and every spelling of
   every node position vs plain Python indexing (identity `is`), out-of-range = miss,
   dict- and list-rooted containers, converted recursively or wrapping plain.
 """
 import copy
+import os
+import re
 
 from harness import core
+from harness import translate_py_xp as tr
 from harness.core import enc_str, enc_val
 from harness.props import xpath_common as X
 
 MANIFEST = dict(
     category="proof",
-    technique="Lean 4 theorems over a hand-written model of the xpath engine + differential correspondence with the implementation",
+    technique="Lean 4 theorems over a hand-written model of the xpath engine + Python-subset-to-Lean translator with machine-checked "
+              "equality between the translated source of the two pure primitives (n0eval, split_name_index) and the model + "
+              "differential correspondence with the implementation",
     text="Lean (Props/C01.lean; all theorems unbounded in tree size/depth; keys are plain names): "
          "(1) enumeration: xpath() of any tree is the document-order DFS list of its scalar leaves, each under its canonical "
          "path (C01_enum_is_leaves; the DFS `leaves` is the reference, it visits every leaf position once by construction) and "
@@ -36,14 +44,51 @@ MANIFEST = dict(
          "first = the same element, a one-element list unwrapped: C01_spellings_first); an index out of range after a walk "
          "along existing nodes is a miss in every spelling on both roots: item access raises IndexError, get/first return "
          "the default, tree unchanged (C01_out_of_range_miss). "
+         "(5) tie of the two pure primitives every lookup goes through to the source: on every run harness/translate_py_xp.py "
+         "re-translates the Python text of n0eval (index arithmetic: last(), new(), i+j, -k; nested my_split, two loops, "
+         "try/except around int()/float()) and of split_name_index (name, [index], conditions with the operator table, quotes, "
+         "contains(text(), ...), true()/false(); for/else with break, tuple unpacking of split(d, 1)) into Lean (Gen/XPathPrim.lean) "
+         "and Lean re-checks C01_generated_n0eval_eq and C01_generated_split_eq: translated definition = hand-written model for "
+         "every string, exception classes included (corollaries C01_idx_spelling_eval_generated, C01_step_split_generated state "
+         "(2) on the translated code). A change of these functions changes the generated text, so it either still satisfies the "
+         "equalities or a proof obligation fails; code outside the translated subset is reported as a broken tie. The translated "
+         "definitions are also compared with the real functions (streams xpprim.eval, xpprim.split). "
          "Differential only (not Lean theorems): object identity `is`; n0/plain class taggings beyond what the model tracks; "
          "misses of other kinds (unknown key, step below a leaf); the agreement of the model of _find/_get/get/first with "
          "the real code (compared on enumerated paths, random spellings, misses and token soup); the statement itself "
          "(identity, all spellings, both roots and class taggings) is executed on the implementation.",
     note="object identity is outside the value model (checked on the implementation side only); keys are plain names; "
-         "floats are opaque lexemes.",
+         "floats are opaque lexemes. Trusted for the translator tie: the translator's reading of the Python subset and the "
+         "library definitions it uses (str.split/strip/lower/replace/startswith/endswith, slices, int() = XPath.pyInt on ASCII "
+         "text, float() has no value: ValueError on text no float literal can be, otherwise outside the scope; "
+         "urllib.parse.unquote = identity on text without '%', otherwise outside the scope); see notes/C01-gen.md.",
     design_ref="5/C01",
 )
+
+
+EXTRA_TARGETS = ("N0Verif.Gen.XPathPrim", "N0Verif.Proofs.XPathPrimGenEq")
+
+
+# ---------------------------------------------------------------------------
+# translator hook (A.1): regenerate Gen/XPathPrim.lean from the source under test
+# ---------------------------------------------------------------------------
+def translate(ctx):
+    info = {"file": "lean/N0Verif/Gen/XPathPrim.lean", "sources": [tr.SRC_EVAL, tr.SRC_SPLIT], "translator": "harness/translate_py_xp.py"}
+    try:
+        legend, changed, differs = tr.regenerate(core.REPO)
+        info.update(names=legend, regenerated_text_changed=changed, differs_from_unchanged_code=differs)
+        if differs:
+            # the text is new: make sure Lean accepts it as definitions (the equalities are checked by the proof step)
+            rc, out = core.sh(["lake", "build", "N0Verif.Gen.XPathPrim"], cwd=core.LEAN_DIR)
+            if rc != 0:
+                raise tr.TranslateError("Lean rejects the generated definitions: " + out[-600:])
+    except tr.TranslateError as e:
+        # the code left the translated subset: the tie is broken, not the infrastructure.  Keep the text generated
+        # from the unchanged code and let B and C look for a failing input.
+        ctx.tie_broken.append({"tie": "translator harness/translate_py_xp.py (Python subset -> Lean)", "detail": str(e)})
+        tr.restore_baseline()
+        info.update(error=str(e), restored="text generated from the unchanged code")
+    ctx.extra["translated"] = info
 
 
 def dfs_leaves(t, path="/"):
@@ -188,8 +233,78 @@ def shrink_failure(evaluator, case):
     return core.shrink(case, lambda c: isinstance(c.get("tree"), dict) and c.get("mode") in ("n0", "wrap") and check_enum(c) is not None)
 
 
+def split_impl(t):
+    from n0struct import split_name_index
+
+    r = core.call(split_name_index, t)
+    if r[0] == "err":
+        return "err " + r[1]
+    n, i = r[1]
+    if i is None:
+        s = "N"
+    elif isinstance(i, str):
+        s = "S" + enc_str(i)
+    else:
+        k, op, v = i
+        s = "C %s %s %s" % (enc_str(k), enc_str(op), ("S" + enc_str(v)) if isinstance(v, str) else ("T" if v else "F"))
+    return "ok %s %s" % (enc_str(n), s)
+
+
+def eval_impl(t):
+    from n0struct import n0eval
+
+    r = core.call(n0eval, t)
+    if r[0] == "err":
+        return "err " + r[1]
+    r = r[1]
+    if isinstance(r, bool):
+        return "unsupported-impl"
+    if isinstance(r, int):
+        return "ok I%d" % r
+    if isinstance(r, str):
+        return "ok S" + enc_str(r)
+    return "ok float"
+
+
+def tok_impl(t):
+    xs = [itm.strip() for itm in t.replace("][", "]/[").split("/") if itm]
+    return ("ok %d %s" % (len(xs), " ".join(enc_str(x) for x in xs))).rstrip()
+
+
+TOKEN_STREAMS = {"xp.split": split_impl, "xp.eval": eval_impl, "xp.tok": tok_impl, "xpprim.split": split_impl, "xpprim.eval": eval_impl}
+
+
 def replay(rp):
+    kind = rp.get("kind")
+    if kind == "tie":
+        # does the translator still refuse the source?
+        try:
+            tr.translate_sources(tr.read_sources(core.REPO))
+        except tr.TranslateError as e:
+            print("translator:", e)
+            return 1
+        print("translator: the source is inside the translated subset")
+        return 0
+    if kind == "proof":
+        # regenerate the definitions from the source and re-check the theorems
+        try:
+            _legend, _changed, differs = tr.regenerate(core.REPO)
+        except tr.TranslateError as e:
+            print("translator:", e)
+            return 1
+        rc, out = core.sh(["lake", "build", "N0Verif.Props.C01"], cwd=core.LEAN_DIR)
+        print("generated text differs from the text of the unchanged code:", differs)
+        print(out[-3000:])
+        print("result:", "the theorems check" if rc == 0 else "a proof obligation fails")
+        return 1 if rc != 0 else 0
     c = rp["case"]
+    stream = rp.get("correspondence_stream", "").split("/")[0]
+    if stream in TOKEN_STREAMS:
+        mo = core.run_driver([rp["line"]])[0]
+        io_ = TOKEN_STREAMS[stream](c)
+        print("correspondence replay (%s): %r" % (stream, c))
+        print("model:", mo, "impl:", io_)
+        return 1 if (mo != io_ and mo not in ("unsupported", "err Unsupported")) else 0
     ev = rp.get("evaluator", "").split("/")[0]
     if ev in EVALS:
         bad = EVALS[ev](c)
@@ -223,8 +338,61 @@ def impl_get(kind, xp, d, o):
     return X.impl_result(r, o)
 
 
+# --------------------------------------------------------------------------- inputs of the token layer
+WS = [" ", " ", "\t", "\u00a0", "\u2003", "\x1f", "\n"]
+
+
+def gen_index_expr(rng):
+    """index expressions and near misses: digits, signs, last(), new(), blanks, underscores, dots, letters"""
+    atoms = ["0", "1", "2", "7", "12", "007", "1_0", "_1", "1_", "1__0", "last()", "LAST()", "Last ()", "new()", "NEW()", "+", "+", "-", "-",
+             " ", "\t", "\u00a0", ".", "1.5", "1.x", ".5", "e", "1e3", "x", "last", "()", "٣", "é", "++", "--", "+-", ""]
+    n = rng.choice([1, 1, 2, 2, 3, 3, 4, 5, 6])
+    parts = [rng.choice(atoms) for _ in range(n)]
+    if "٣" in parts:
+        # a text with '.' and non-ASCII digits is a float for Python; the model of float() is about ASCII text
+        parts = [p for p in parts if "." not in p]
+    return "".join(parts)
+
+
+def gen_step(rng):
+    """steps `name[...]`: indexes, conditions with every operator of the table, quotes, true()/false(), contains(text(), v)
+    and malformed variants of each"""
+    ws = lambda: rng.choice(["", "", "", " ", rng.choice(WS)])
+    name = rng.choice(["", "a", "b", "node", " a ", "a b", "*", "..", "a[0]", "é"])
+    key = rng.choice(["k", "id", "text()", "a/b", "", "K k", "@x", "k["])
+    op = rng.choice(["=", "==", "!=", "~", "~~", "!~", "=", "~", "=!", "=~", "~=", "!", "<", "==="])
+    val = rng.choice(["v", "1", "", "a b", "true()", "True()", "TRUE ()", "false()", "FALSE()", "'q'", '"q"', "'q\"", "'", "''", '""', "'a=b'",
+                      '"x~y"', "'100%'", "'%41'", "%", "new()", "last()", "v]", "[v", "'é'", "' s '", "'tRue()'"])
+    kind = rng.randrange(10)
+    if kind < 4:
+        inner = ws() + key + ws() + op + ws() + val + ws()
+    elif kind < 6:
+        fn = rng.choice(["contains", "Contains", "CONTAINS", "contains ", "contain"])
+        arg1 = rng.choice(["text()", "TEXT()", "text", "Text ()", "txt", "k", ""])
+        sep = rng.choice([",", ",", " , ", "", ",,", ";"])
+        par = rng.choice(["(", "(", "", "(("])
+        clo = rng.choice([")", ")", "", "))", ") "])
+        inner = ws() + fn + par + ws() + arg1 + sep + rng.choice(["v", "'v'", "a,b", "a=b", "", " v "]) + clo + ws()
+    elif kind < 8:
+        inner = ws() + gen_index_expr(rng) + ws()
+    elif kind == 8:
+        inner = rng.choice(["", " ", "=", "~", "!=", "==", "a=", "=b", "a~", "!~", "'='", "a!b", "=="])
+    else:
+        inner = ws() + key + op + val + rng.choice(["][", "[", "]", "]]"]) + key + op + val
+    tail = rng.choice(["]", "]", "]", "]", "] ", "", "]]", "]x"])
+    return ws() + name + rng.choice(["[", "[", "[", " [", "[[", ""]) + inner + tail
+
+
 def run(ctx):
-    from n0struct import split_name_index, n0eval
+    if ctx.proof is not None and getattr(ctx.proof, "failed", None):
+        # say where the proof step broke (with a regenerated Gen/XPathPrim.lean this is normally
+        # Proofs/XPathPrimGenEq.lean: the translated source no longer equals the model)
+        log = ctx.proof.build_log or ""
+        ctx.extra["proof_step"] = {
+            "modules_with_errors": sorted(set(re.findall(r"^- (N0Verif\.\S+)", log, re.M))),
+            "first_errors": [l[:240] for l in log.split("\n") if l.startswith("error: N0Verif")][:6],
+            "generated_text_differs_from_unchanged_code": ctx.extra.get("translated", {}).get("differs_from_unchanged_code"),
+        }
 
     ntrees = ctx.budget(500, 12000)
     rng = ctx.rng("trees")
@@ -290,37 +458,30 @@ def run(ctx):
         toks.add("".join(rng.choice(ATOMS) for _ in range(rng.randrange(1, 8))))
     toks = sorted(toks)
 
-    def split_impl(t):
-        r = core.call(split_name_index, t)
-        if r[0] == "err":
-            return "err " + r[1]
-        n, i = r[1]
-        if i is None:
-            s = "N"
-        elif isinstance(i, str):
-            s = "S" + enc_str(i)
-        else:
-            k, op, v = i
-            s = "C %s %s %s" % (enc_str(k), enc_str(op), ("S" + enc_str(v)) if isinstance(v, str) else ("T" if v else "F"))
-        return "ok %s %s" % (enc_str(n), s)
-
-    def eval_impl(t):
-        r = n0eval(t)
-        if isinstance(r, bool):
-            return "unsupported-impl"
-        if isinstance(r, int):
-            return "ok I%d" % r
-        if isinstance(r, str):
-            return "ok S" + enc_str(r)
-        return "ok float"
-
-    def tok_impl(t):
-        xs = [itm.strip() for itm in t.replace("][", "]/[").split("/") if itm]
-        return ("ok %d %s" % (len(xs), " ".join(enc_str(x) for x in xs))).rstrip()
-
     ctx.correspond("xp.split", toks, lambda t: "xp.split " + enc_str(t), split_impl)
     ctx.correspond("xp.eval", toks, lambda t: "xp.eval " + enc_str(t), eval_impl)
     ctx.correspond("xp.tok", toks, lambda t: "xp.tok " + enc_str(t), tok_impl)
+
+    # ---- B: the two primitives, hand-written model and the definitions translated from the source (Gen/XPathPrim.lean),
+    # on steps / index expressions built for them (every operator, quotes, contains(text(), v), blanks, malformed variants)
+    rng = ctx.rng("primitives")
+    steps, exprs = set(), set()
+    for _ in range(ctx.budget(2500, 60000)):
+        steps.add(gen_step(rng))
+        exprs.add(gen_index_expr(rng))
+    for t in toks[:: max(1, len(toks) // ctx.budget(500, 10000))]:
+        steps.add(t)
+        exprs.add(t)
+    for st in list(steps)[: ctx.budget(300, 5000)]:
+        if "[" in st and st.endswith("]"):
+            exprs.add(st[st.index("[") + 1:-1])  # what _find passes to n0eval
+    steps, exprs = sorted(steps), sorted(exprs)
+    nt_split = lambda t: "[" in t and t.endswith("]")
+    nt_eval = lambda t: any(ch in t for ch in "+-") or "last" in t.lower()
+    ctx.correspond("xp.split/steps", steps, lambda t: "xp.split " + enc_str(t), split_impl, nontrivial=nt_split)
+    ctx.correspond("xp.eval/exprs", exprs, lambda t: "xp.eval " + enc_str(t), eval_impl, nontrivial=nt_eval)
+    ctx.correspond("xpprim.split", steps, lambda t: "xpprim.split " + enc_str(t), split_impl, nontrivial=nt_split)
+    ctx.correspond("xpprim.eval", exprs, lambda t: "xpprim.eval " + enc_str(t), eval_impl, nontrivial=nt_eval)
 
     # ---- B: enumeration and lookups
     ctx.correspond(
@@ -342,5 +503,16 @@ def run(ctx):
     ctx.extra["assumptions"] = [
         "trees have plain-name keys and scalar leaves str/int/float/bool/None (floats: no NaN/inf/-0.0)",
         "object identity is checked on the implementation only; the model speaks about positions",
+        "translated primitives: n0eval and split_name_index are translated for a str argument (the isinstance guards are decided "
+        "statically); str.lower() is the ASCII lower-casing of the model (inputs of the streams contain no non-ASCII cased letters); "
+        "float texts, non-ASCII digits and '%' inside a quoted condition value are outside the modelled scope (answer `unsupported`, "
+        "counted, not compared)",
+    ]
+    ctx.extra["trusted_base"] = [
+        "translator harness/translate_py_xp.py: its reading of the Python subset (notes/C01-gen.md; base subset notes/C13-gen.md) and the "
+        "run-time support definitions it emits into Gen/XPathPrim.lean (foldE, foldC/Ctl, isException, slices, idxE, unpack2E, splitE, "
+        "split1L = XPath.splitOnce, pyIntE = XPath.pyInt on ASCII text, pyFloatE (no value: ValueError or outside the scope), "
+        "unquoteE (urllib.parse.unquote: identity without '%')) together with Py/Basic.lean (split, replace, stripWs, lower, "
+        "startsWith, endsWith, isInfix); exercised by the xpprim.* streams",
     ]
     ctx.extra["distribution"] = {"trees": len(trees), "spellings": len(sp_cases), "misses": len(miss_cases), "tokens": len(toks)}
